@@ -228,6 +228,10 @@ class Prop:
 
     # ------------------------------------------------------------------ execution
     def execute(self, case):
+        if case.get("witness"):
+            from simkit import witness
+
+            return witness.run(case["witness"])
         from pymablock.series import PENDING, BlockSeries, zero
 
         roots_spec = case["roots"]
@@ -723,10 +727,12 @@ class Prop:
                 yield {**case, "roots": roots}
 
     def match_known(self, case, violation):
+        if case.get("witness"):
+            return case["witness"] if violation["class"] == "known-witness" else None
         return None
 
     def witnesses(self):
-        return {}
+        return {fid: {"witness": fid} for fid in ['C19/packed-view-evaluates-siblings']}
 
 
 PROP = Prop()
